@@ -300,3 +300,46 @@ def _fit(ct, tier, seed):
 
 
 contract('C10.fit', [ZK + ':ZernikeFit._fit', ZK + ':ZernikeFit._objective', ZK + ':ZernikeFit.__init__'], ['C10'], custom=_fit)(lambda c: None)
+
+
+def _zernike_opd(ct, tier, seed):
+    """bounded: the lens-wavefront decomposition (wavefront.ZernikeOPD) fits *the sampled OPD* at the sampled pupil points -- also when
+    a physical aperture or obscuration blocks part of the bundle -- i.e. its coefficients are those of a direct ZernikeFit of an
+    independently computed OPD, and its reconstruction reproduces that OPD up to the same truncation residual"""
+    import warnings
+    from optiland import wavefront
+    from optiland.physical_apertures import RadialAperture
+    from optiland.samples.objectives import CookeTriplet
+    warnings.simplefilter('ignore')
+    np.seterr(all='ignore')
+    t0 = time.time()
+    from pyvc import twin as _twin
+    zr = _twin.real('optiland.zernike')
+    clauses, fails, cases = {}, [], 0
+    cid = 'C10.zernike_opd.coefficients_are_the_fit_of_the_sampled_opd'
+    for (clip, fam, nt) in ((None, 'fringe', 37), (5.5, 'standard', 36), (5.0, 'noll', 28)):
+        L = CookeTriplet()
+        if clip:
+            L.surface_group.surfaces[6].aperture = RadialAperture(r_max=clip)
+        f0 = (0.0, 1.0)
+        pw = L.primary_wavelength
+        ref = wavefront.OPD(L, f0, pw, num_rings=6)
+        z = np.array(ref.data[0][0][0], dtype=float)
+        inten = np.array(ref.data[0][0][1], dtype=float)
+        zo = wavefront.ZernikeOPD(L, f0, pw, num_rings=6, zernike_type=fam, num_terms=nt)
+        direct = zr.ZernikeFit(ref.distribution.x, ref.distribution.y, z, fam, nt)
+        cases += 1
+        ok = bool(np.allclose(np.array(zo.coeffs, dtype=float), np.array(direct.coeffs, dtype=float), rtol=1e-7, atol=1e-9))
+        _clause(clauses, cid, ok, '%s clip=%s' % (fam, clip), backend='runtime')
+        if not ok:
+            fails.append({'clause': cid, 'draws': {'lens': 'CookeTriplet', 'clip_radius_surface_6': clip, 'family': fam, 'blocked_rays': int(np.sum(inten == 0))},
+                          'note': 'max coefficient difference %.3e' % float(np.max(np.abs(np.array(zo.coeffs, dtype=float) - np.array(direct.coeffs, dtype=float))))})
+    for c_ in clauses.values():
+        c_['bounded'] = True
+    return {'contract': ct.name, 'functions': ct.functions, 'props': ct.props,
+            'symbolic': {'clauses': clauses, 'paths': 0, 'errors': [], 'solver_s': 0.0, 'samples': [], 'wd_assumed': [], 'assumed': []},
+            'numeric': {'accepted': cases, 'rejected': 0, 'failures': fails[:10], 'concolic_agree': 0, 'encoder_mismatches': [],
+                        'samples': [{'lens': 'CookeTriplet with and without a clipping aperture'}]}, 'wall_s': time.time() - t0}
+
+
+contract('C10.zernike_opd', ['optiland/wavefront.py:ZernikeOPD.__init__', ZK + ':ZernikeFit.__init__'], ['C10'], custom=_zernike_opd)(lambda c: None)
